@@ -230,6 +230,19 @@ func c10enumAndBinary(c *core.Ctx) {
 	if v, err := node.NewValue(meta.Find(m, "pl").(meta.Leafable).Type(), []int{1, 2, 0, 3}); err != nil || fmt.Sprint(v) != "running,stopping,idle,failed" {
 		c.Violation(core.Replay{Kind: "property-failure", Class: "enum-by-value-list", Summary: fmt.Sprintf("NewValue(leaf-list pl, [1 2 0 3]) = %v (%v), want running,stopping,idle,failed", v, err), Input: "pl [1 2 0 3]"})
 	}
+	// the values of a compound key, more and fewer of them than the list has key leaves
+	if e := safeDo(func() error {
+		lf := meta.Find(m, "p").(meta.Leafable)
+		for _, objs := range [][]interface{}{{}, {"idle"}, {"idle", "failed"}, {"idle", "failed", "x"}} {
+			vs, err := node.NewValues([]meta.Leafable{lf, lf}, objs...)
+			if len(objs) > 2 && err == nil {
+				return fmt.Errorf("NewValues of %d values for 2 leaves: no error, %v", len(objs), vs)
+			}
+		}
+		return nil
+	}); e != nil {
+		c.Violation(core.Replay{Kind: "property-failure", Class: "newvalues-count", Summary: "node.NewValues with a number of values other than the number of leaves: " + e.Error(), Input: "NewValues"})
+	}
 	// bytes -> binary value -> bytes, every sextet
 	bt := meta.Find(m, "bin").(meta.Leafable).Type()
 	for _, b := range [][]byte{{0xfb, 0xff, 0xfe}, {0xfb, 0xff}, []byte("subjects?"), []byte("hi"), {0}, {}, {0xff, 0xff, 0xff, 0xff}, []byte(">>>???")} {
